@@ -229,6 +229,31 @@ example :
     ∧ (execCached W ([], []) t0 evs).map (·.perFile.flatten.map (·.line)) = [[1], [257]] := by
   refine ⟨by decide +kernel, by decide +kernel, by decide +kernel, by decide +kernel, by decide +kernel, by decide +kernel⟩
 
+/-! ## several jobs -/
+
+/-- **any worker order.** A run whose workers finish the listed files in any order (a permutation; one file = one atomic step,
+    the workers write pairwise different cache files by `MapOK`) reports the whole-program findings of a run without build
+    directory and, per file, the findings of a run without build directory; the invariant the history induction needs is
+    preserved, so `history_transparent_partial` holds for every schedule of every run.  (Two workers inside *one* cache file and
+    the additional in-memory whole-program pass of `-j1` are outside the model.) -/
+theorem run_any_worker_order (W : World H S F) (L : List FileInput) (vis : Finding → Bool)
+    (hinj : HashInjOn W L) (henc : KeyFaithfulOn W.enc L)
+    (st : BdState H S F) (hbd : Inv W L st.1) (files order : List FileInput) (hperm : order.Perm files) (hL : ∀ i ∈ files, i ∈ L)
+    (hmac : MacroFree W vis files) (hsr : SummFree W (srOf W st.1 st.2) files) (hmap : MapOK W.lk (files.map (·.path))) :
+    (runWithCacheSched W vis st files order).2.whole = (runFresh W vis files).whole
+    ∧ (runWithCacheSched W vis st files order).2.perFile = (runFresh W vis order).perFile
+    ∧ Inv W L (runWithCacheSched W vis st files order).1.1 :=
+  runWithCacheSched_spec W L vis hinj henc st hbd files order hperm hL hmac hsr hmap
+
+/-- a reversed worker order on a two-file run (first run of a build directory, so `Inv` holds trivially) -/
+example :
+    let W := toyWorld Encoding.fixed .exactFirst
+    let files : Tree := [(mkInput "a.c" [("?", 1, 1), ("!", 2, 1)]).withPathPrefix, (mkInput "b.c" [("?", 1, 1)]).withPathPrefix]
+    files.reverse.Perm files ∧ HashInjOn W files ∧ KeyFaithfulOn W.enc files ∧ MacroFree W showAll files
+    ∧ SummFree W (srOf W ([] : BuildDir Str (List RawTok) Bool) []) files ∧ MapOK W.lk (files.map (·.path))
+    ∧ (runWithCacheSched W showAll ([], []) files files.reverse).2.whole.map (·.file) = ["a.c".toList, "b.c".toList] := by
+  refine ⟨List.reverse_perm _, by decide +kernel, by decide +kernel, by decide +kernel, by decide +kernel, by decide +kernel, by decide +kernel⟩
+
 /-! ## the collision hypothesis: satisfiable by a lossy hash, and necessary -/
 
 /-- the collision hypothesis is met by a hash that is **not** injective: a 16-bit polynomial hash (`"Aa"` and `"BB"` collide) is
@@ -281,5 +306,19 @@ theorem current_toolinfo_fields_known :
            "premiumArgs", "suppressions", "certainty:inconclusive", "checks:unusedFunction", "checks:missingInclude", "userUndefs",
            "standards", "platform", "libraries"] := by
   decide
+
+/-! ## inputs built from settings satisfy `hpath` -/
+
+/-- the cache-key input CppCheck::checkInternal builds for a file (toolinfo rendered by the translated chain from the settings,
+    `filePath` = the file's path) is `PathPrefixed`: `hpath` holds for every input of this form -/
+theorem ofSettings_pathPrefixed (sv : SettingsView) (main : List RawTok) (headers : List Header) (opts : Str) (i : FileInput)
+    (h : FileInput.ofSettings Cppcheck.Gen.HashInput.toolinfoItems sv main headers opts = some i) : PathPrefixed i := by
+  unfold FileInput.ofSettings at h
+  cases hr : renderToolinfo Cppcheck.Gen.HashInput.toolinfoItems sv with
+  | none => simp [hr] at h
+  | some ti =>
+    simp only [hr, Option.map_some, Option.some.injEq] at h
+    subst h
+    exact current_toolinfo_path_first sv ti hr
 
 end Cppcheck.Cache
